@@ -88,6 +88,15 @@ func par1SetEvent(ev string, dir, base string, specs []refpar1.FileSpec, nvols, 
 		}
 	} else {
 		cols = append(cols, 0, 1, maxlen-1, maxlen/2, 16383, 16384)
+		// columns around every multiple of 64 KiB and just past the end of each shorter file (chunked encoders)
+		for b := 65536; b < maxlen; b += 65536 {
+			cols = append(cols, b-1, b, b+1, b+1000)
+		}
+		for _, f := range saved {
+			if n := len(f.Data); n > 0 && n < maxlen {
+				cols = append(cols, n-1, n, n+65536)
+			}
+		}
 		for k := 0; k < 10; k++ {
 			cols = append(cols, rng.Intn(maxlen))
 		}
@@ -161,6 +170,9 @@ func runC10(args []string) error {
 		if i%9 == 4 {
 			nf = 10 + rng.Intn(25)
 		}
+		if i == 13 {
+			nf, nv = 5, 2
+		}
 		if i%11 == 6 {
 			nv = 30 + rng.Intn(70)
 		}
@@ -172,6 +184,9 @@ func runC10(args []string) error {
 			sz := []int{0, 1, 3, 10, 24, 100, 5000, 16383, 16384, 16385, 30000 + rng.Intn(40000)}[rng.Intn(11)]
 			if i < 12 {
 				sz = rng.Intn(20) // tiny sets: every parity byte is judged
+			}
+			if i == 13 {
+				sz = []int{1000, 200000, 70000, 65536, 3}[k%5] // files ending inside, at and beyond 64 KiB chunks
 			}
 			if nf > 9 && sz > 3000 || nv > 20 && sz > 3000 {
 				sz = rng.Intn(3000)
